@@ -342,7 +342,7 @@ func c09Check(ctx *Ctx, pl *fwPool, idx int, cs c09Case, base *c09Base) {
 	// ---------------- impl vs property oracle ----------------
 	if out.Crash != "" {
 		nontrivial = true
-		fail("property-fails", c09KnownClass(cs, "crash", out.Crash), "CRASH of the gateway process under this fault plan: "+crashShort(out.Crash), out.Crash, nil)
+		fail("property-fails", c09KnownClass(cs, "crash", out.Crash), "CRASH of the gateway process "+crashShort(out.Crash), out.Crash, nil)
 		c09ModelOnCrash(ctx, pl, idx, cs, base, out.Crash)
 		return
 	}
@@ -499,10 +499,21 @@ func c09Check(ctx *Ctx, pl *fwPool, idx int, cs c09Case, base *c09Base) {
 	}
 }
 
-// crashShort puts the panic message first (the part that distinguishes one defect from another)
+// crashShort names the pebbles function that panicked first (what distinguishes one defect from another)
 func crashShort(c string) string {
-	c = strings.TrimPrefix(c, "panic: ")
-	return c
+	parts := strings.Split(c, " | ")
+	msg := strings.TrimPrefix(parts[0], "panic: ")
+	where := ""
+	if len(parts) > 1 {
+		where = parts[1]
+		if i := strings.Index(where, "("); i > 0 && !strings.HasPrefix(where[i:], "(*") {
+			where = where[:i]
+		} else if j := strings.LastIndex(where, "("); j > 0 {
+			where = where[:j]
+		}
+		where = strings.TrimPrefix(where, "github.com/buildbuildio/pebbles/")
+	}
+	return "in " + where + ": " + msg + " [" + strings.Join(parts[1:], " | ") + "]"
 }
 
 func uniq(xs []string) []string {
@@ -949,7 +960,7 @@ func c09CheckBatch(ctx *Ctx, pl *fwPool, idx int, cs c09Case) {
 	ctx.Rep.Case(cs.key(), fired || out.Crash != "")
 	ctx.Rep.Count("fault in a client batch: " + cs.Faults[0].Kind)
 	if out.Crash != "" {
-		fail("property-fails", c09KnownClass(cs, "crash", out.Crash), "CRASH of the gateway process under this fault plan: "+crashShort(out.Crash), out.Crash, nil)
+		fail("property-fails", c09KnownClass(cs, "crash", out.Crash), "CRASH of the gateway process "+crashShort(out.Crash), out.Crash, nil)
 		return
 	}
 	if out.Timeout || out.Res.Hang || out.Res.Panic != "" {
